@@ -180,6 +180,8 @@ def run_level(
             if res is None:
                 continue
             if res[0] == "VIOLATION":
+                # an explored state all the same (it is not expanded further)
+                part.count("violating_states")
                 continue
             out.append(res)
             if sample_every and len(out) % sample_every == 1:
